@@ -284,6 +284,44 @@ async def reassembly(loop: vloop.VirtualLoop, ctx, trial: int) -> None:
                 "after receiving the fragment packets (in some order, with repeats) the zone reports a schedule other than the one that was encoded",
                 {"zone": z["idx"], "kind": z["kind"], "history": lines[:12], "fragments": len(z["frags"]), "zones": len(zones)},
             )
+    # second phase: the schedule is edited on the controller (usually: same number of fragments) and the
+    # fragments of the new one are overheard in some order with repeats - the zone must end with the new
+    # schedule or none, never with another one (not the old one either: all of the new one was received)
+    if tcs is not None and trial % 2 == 0:
+        t += 1
+        pkt = Packet.from_port(vloop.EPOCH.replace(microsecond=t * 1000), f"045 RP --- {CTL} {GWY} --:------ 0006 004 00050{0x136 + trial % 7:03X}")
+        gwy._protocol.pkt_received(pkt)
+        await vloop.drain(loop, 4)
+        for z in zones:
+            s2 = copy.deepcopy(z["s"])
+            for d in s2["schedule"]:
+                for sp in d["switchpoints"]:
+                    if "heat_setpoint" in sp:
+                        sp["heat_setpoint"] = round(5.0 + (round(sp["heat_setpoint"] * 100) + 137) % 3000 / 100, 2)
+                    else:
+                        sp["enabled"] = not sp["enabled"]
+            frags2 = ref_fragments(s2) if z["enc"] == "ref" else sch.full_sched_to_fragz(copy.deepcopy(s2))
+            order = list(range(1, len(frags2) + 1))
+            rng.shuffle(order)
+            if rng.random() < 0.5:
+                order.insert(rng.randrange(len(order) + 1), rng.randint(1, len(frags2)))
+            for k in order:
+                t += 1
+                line = "045 " + rp_frame(z["idx"], k, len(frags2), frags2[k - 1], z["kind"] == "dhw")
+                gwy._protocol.pkt_received(Packet.from_port(vloop.EPOCH.replace(microsecond=t * 1000), line))
+                await vloop.drain(loop, 4)
+            await vloop.drain(loop)
+            zone = tcs.dhw if z["kind"] == "dhw" else tcs.zone_by_idx.get(z["idx"])
+            got = zone.schedule if zone is not None else None
+            ctx.count("reassembly.second")
+            ctx.seen(f"hist2|{len(z['frags'])}->{len(frags2)}|{z['kind']}|{'none' if got is None else 'new' if got == s2['schedule'] else 'other'}")
+            if got is not None and got != s2["schedule"]:
+                stale = got == z["s"]["schedule"]
+                ctx.violate(
+                    "C17|reassembly|stale-schedule-after-new-fragments" if stale else "C17|reassembly|different-schedule",
+                    "after all fragment packets of an edited schedule were received the zone still reports the earlier schedule" if stale else "after receiving the fragment packets of an edited schedule the zone reports a schedule that is neither",
+                    {"zone": z["idx"], "kind": z["kind"], "fragments_before": len(z["frags"]), "fragments_after": len(frags2), "order": order},
+                )
     for u in loop.unhandled:
         ctx.info.setdefault("loop_unhandled", []).append(f"{u['type']}@{u['where']}")
     await gwy.stop()
